@@ -480,5 +480,5 @@ def concretise(tier, seed, refuted, undecided, known):
     d = differential("quick", seed)
     for x in d["details"][:2]:
         out.append({"found": True, "for": None, "input": {"grammar": x.get("text")}, "observed": x.get("what") + ": " + str(x.get("got"))[:160],
-                    "cmd": "cd /verif && .venv/bin/python -c \"from replay import metaspec as m; print(m.compare(<grammar>))\""})
+                    "cmd": "cd /verif && .venv/bin/python -c \"import json, os, sys; from replay import metaspec as m; d = json.load(open(os.environ['REPLAY_FILE'])); g = (d.get('failing_input') or d.get('input'))['grammar']; r = m.compare(g); print(r); sys.exit(1 if r else 0)\""})
     return out
